@@ -10,12 +10,17 @@ import sys
 import time
 
 VERIF = os.path.dirname(os.path.dirname(os.path.abspath(__file__)))
-SPEC = os.path.join(VERIF, "spec")
-HARNESS = os.path.join(VERIF, "harness")
-WORK = os.path.join(VERIF, "work")
-EVIDENCE = os.path.join(VERIF, "evidence")
-REPLAYS = os.path.join(VERIF, "replays")
-REPO = "/repo"
+SPEC = os.path.join(VERIF, "spec")  # overridden below in development mode
+# Development aid only (never set by the registered commands): SLE_VERIF_DEV=<dir> runs the checks with the harness
+# copy in <dir>/harness (which may depend on a scratch worktree) and keeps work files, evidence and replays under <dir>.
+_DEV = os.environ.get("SLE_VERIF_DEV")
+HARNESS = os.path.join(_DEV or VERIF, "harness")
+WORK = os.path.join(_DEV or VERIF, "work")
+EVIDENCE = os.path.join(_DEV or VERIF, "evidence")
+REPLAYS = os.path.join(_DEV or VERIF, "replays")
+REPO = os.environ.get("SLE_VERIF_DEV_REPO", "/repo") if _DEV else "/repo"
+if _DEV and os.path.isdir(os.path.join(_DEV, "spec")):
+    SPEC = os.path.join(_DEV, "spec")
 TLA_JAR = "/opt/veriftools/tla/tla2tools.jar"
 CM_JAR = None
 
